@@ -100,6 +100,9 @@ class EncodeCtx(Contract):
     def ensures(self, c, out):
         cl, calls = self._exit_clauses(c, out.state, False)
         names = [e[1] for e in calls]
+        # C18 / C01: a failure of any step surfaces as an exception of rtf_encode ("if encoding fails ... raise"); a string is returned only
+        # when no step failed
+        cl["C18.a_result_is_returned_only_when_no_step_of_the_pipeline_failed"] = z3.BoolVal(not any(e[0] == "fault" for e in out.state.effects))
         cl["exactly_one_pipeline_call"] = z3.BoolVal(sum(1 for n in names if n in PIPELINE) == 1)
         want = {"single": "UnifiedRTFEncoder._encode_body_section", "multi": "UnifiedRTFEncoder._encode_multi_section",
                 "figure": "UnifiedRTFEncoder._encode_figure_only"}[c.variant]
@@ -109,7 +112,7 @@ class EncodeCtx(Contract):
             ps = r.pieces
             starts = [e for e in out.state.effects if e[0] == "call" and e[1].endswith("encode_document_start")]
             cl["skeleton_opens_with_document_start"] = z3.BoolVal(len(starts) == 1 and len(ps) > 0 and z3.is_expr(ps[0]))
-            cl["skeleton_closes_with_single_brace_last"] = z3.BoolVal(isinstance(ps[-1], str) and ps[-1].endswith("\n}") and ps[-1].count("}") == 1)
+            cl["skeleton_closes_with_single_brace_last"] = z3.BoolVal(len(ps) > 0 and isinstance(ps[-1], str) and ps[-1].endswith("\n}") and ps[-1].count("}") == 1)
             order = [n.split(".")[-1] for n in names if n.startswith("RTFEncodingService.")]
             cl["prolog_order"] = z3.BoolVal(order == SERVICE)
             cl["page_header_and_footer_defined_once"] = z3.BoolVal(order.count("encode_page_header") == 1 and order.count("encode_page_footer") == 1)
